@@ -1,5 +1,6 @@
 import MockeryModel.Config.Select
 import MockeryLemmas.Select
+import MockeryModel.Generated.Decide
 /-!
 # C07 — Exactly the configured interfaces and packages are mocked, once per config entry
 
@@ -304,5 +305,52 @@ example :
     let pc : PkgOut := ⟨[("recursive", .b true), ("exclude-subpkg-regex", .l ["x"]), ("dir", .s "D")], []⟩
     ((injectOne fieldTable m (fun _ => ["p", "p/x", "p/y"]) [("p", pc)] "p").toOption.map
       (fun o => o.map (fun q => (q.1, strOf q.2.config "dir")))) = some [("p", "D"), ("p/y", "D")] := by decide
+
+/-! ### the decision functions of the model are the source's
+
+`Generated/Decide.lean` is written on every run by a translator (harness/verifx/godecide.go) from the Go text of
+`PackageConfig.ShouldGenerateInterface` and `Config.ShouldExcludeSubpkg`, statement by statement; only logging is
+dropped and `regexp.MatchString` is a parameter. The model functions all theorems above are about are *equal* to
+these translations, for every input. -/
+
+def selErrName : SelErr → String
+  | .includeRegex => "include-interface-regex"
+  | .excludeRegex => "exclude-interface-regex"
+  | .subpkgRegex => "exclude-subpkg-regex"
+  | .decode => "decode"
+
+open Mockery.Generated.Decide in
+/-- `shouldGenerate` is `ShouldGenerateInterface` as translated from the current source -/
+theorem selection_model_is_the_translated_source (m : Matcher) (all listed : Bool) (inc exc name : String) :
+    shouldGenerateInterface all listed inc exc name m = (shouldGenerate m all listed inc exc name).mapError selErrName := by
+  unfold shouldGenerateInterface shouldGenerate
+  cases all <;> cases listed <;> simp [Except.mapError, pure, Except.pure]
+  by_cases hi : inc = ""
+  · simp [hi]
+  · simp [hi]
+    cases m inc name with
+    | none => simp [throw, throwThe, MonadExceptOf.throw, selErrName]
+    | some b =>
+      cases b <;> simp
+      by_cases he : exc = ""
+      · simp [he]
+      · simp [he]
+        cases m exc name with
+        | none => simp [throw, throwThe, MonadExceptOf.throw, selErrName]
+        | some b2 => cases b2 <;> simp
+
+open Mockery.Generated.Decide in
+/-- `shouldExclude` is `ShouldExcludeSubpkg` as translated from the current source (a search loop over the
+expressions: the first one that matches, or fails to compile, decides) -/
+theorem exclusion_model_is_the_translated_source (m : Matcher) (l : List String) (p : String) :
+    shouldExcludeSubpkg l p m = (shouldExclude m l p).mapError selErrName := by
+  unfold shouldExcludeSubpkg
+  induction l with
+  | nil => simp [shouldExcludeSubpkg.loop, shouldExclude, Except.mapError, pure, Except.pure]
+  | cons r rs ih =>
+    simp only [shouldExcludeSubpkg.loop, shouldExclude]
+    cases m r p with
+    | none => simp [throw, throwThe, MonadExceptOf.throw, selErrName, Except.mapError]
+    | some b => cases b <;> simp [ih, Except.mapError, pure, Except.pure]
 
 end Mockery.C07
